@@ -185,50 +185,124 @@ theorem rejected_sends_nothing (E : Env) (m : String) (pos : List Val) (kw : Dic
     callRes E m pos kw stack = .rejected e := by
   simp [callRes, hs, hr]
 
-/-! ## leaving a block restores the arguments in force before it -/
+/-! ## leaving a block restores the arguments in force before it
 
-/-- **Restore.**  After `with c(**ctx): body` and after `with mc.application(..): body`
-the stack is exactly the stack before - for every body (any nesting, updates,
-calls, failing method bodies) and every sequence `cb` of `before_close` callbacks
-(which may themselves call methods, open blocks, update the context or raise),
-whether the body ends normally or raises at any depth, whether the application
-call is rejected, and whether the stop signal fails. -/
-theorem restore (E : Env) (s : List Dict) (id : Nat) (ctx : Dict) (body cb : Prog) :
-    (exec E s (.block id ctx body cb .done)).stack = s := by
-  obtain ⟨c', hc⟩ := exec_stack E body (dictOf ctx) s
-  obtain ⟨c'', hc2⟩ := exec_stack E cb c' s
-  simp only [exec, hc, hc2, List.tail_cons]
-  split <;> rfl
+The stack of `ContextMixin` holds context OBJECTS.  An object may be kept and entered again - while
+it is already active (`a = mc(x=1); with a: with mc(x=2): with a: ...`), or later, after it was
+left - by plain blocks and by application blocks alike; the theorems below make no assumption about
+which objects are entered: `o` may occur in `s`. -/
 
-theorem restore_application (E : Env) (s : List Dict) (id : Nat) (pos : List Val) (kw : Dict)
+/-- **Restore (the stack of context objects).**  After `with o: body` - for EVERY object `o`, fresh,
+already active (anywhere in `s`, any number of times) or used before; for every body (any nesting,
+further entries of `o` or of any other object, updates, calls, failing method bodies) and every
+sequence `cb` of `before_close` callbacks (which may themselves call methods, enter blocks, update
+the context or raise); whether the body ends normally or raises at any depth; whether the stop signal
+of an application object fails - the stack of active contexts is exactly the stack before: the
+block removed its own entry, the NEWEST one, and nothing else. -/
+theorem restore (E : Env) (h : Heap) (s : List Nat) (id o : Nat) (sf : Bool) (body cb : Prog) :
+    (exec E h s (.enter id o sf body cb .done)).stack = s := exec_stack E _ h s
+
+/-- the same for `with c(**ctx): body` (a fresh object per `with`) -/
+theorem restore_block (E : Env) (h : Heap) (s : List Nat) (id : Nat) (ctx : Dict) (body cb : Prog) :
+    (exec E h s (Prog.block id ctx body cb .done)).stack = s := exec_stack E _ h s
+
+/-- and for `with mc.application(..): body`, also when the application call is rejected -/
+theorem restore_application (E : Env) (h : Heap) (s : List Nat) (id : Nat) (pos : List Val) (kw : Dict)
     (stopFails : Bool) (body cb : Prog) :
-    (exec E s (.app id pos kw stopFails body cb .done)).stack = s := by
-  simp only [exec]
-  split
-  · rfl
-  · split
-    · rfl
-    · rename_i bound _
-      obtain ⟨c', hc⟩ := exec_stack E body [("app_id", (dget bound "app_id").getD Val.none)] s
-      obtain ⟨c'', hc2⟩ := exec_stack E cb c' s
-      simp only [hc]
-      split
-      · simp only [List.tail_cons]
-        split <;> rfl
-      · simp only [hc2, List.tail_cons]
-        split <;> rfl
+    (exec E h s (Prog.app id pos kw stopFails body cb .done)).stack = s := exec_stack E _ h s
 
-/-- for whole programs: nothing below the newest context ever changes, and the
-newest context itself changes only by an `update_current_context` at its own level -/
-theorem restore_inner (E : Env) (p : Prog) (top : Dict) (rest : List Dict) :
-    (∃ top', (exec E (top :: rest) p).stack = top' :: rest) ∧
-    (noTopUpdate p = true → (exec E (top :: rest) p).stack = top :: rest) :=
-  ⟨exec_stack E p top rest, exec_stack_same E p top rest⟩
+/-- for whole programs (arbitrary well-bracketed enter/exit histories with repeated objects): the
+stack of active objects never changes across a statement sequence, and an object that is neither
+created nor updated (`update_current_context` while it is on top) keeps its arguments -/
+theorem restore_inner (E : Env) (p : Prog) (h : Heap) (s : List Nat) :
+    (exec E h s p).stack = s ∧
+    (∀ i, i ∉ (exec E h s p).touched → hget (exec E h s p).heap i = hget h i) :=
+  ⟨exec_stack E p h s, exec_heap E p h s⟩
 
-/-- and the arguments in force (`get_context_arguments()`) are therefore the same too -/
-theorem restore_arguments (E : Env) (s : List Dict) (id : Nat) (ctx : Dict) (body cb : Prog) :
-    merged (exec E s (.block id ctx body cb .done)).stack = merged s := by
-  rw [restore]
+/-- **Restore (the arguments in force).**  `get_context_arguments()` after the block is what it was
+before it, provided no object that was active before the block was updated during it.  (Without the
+proviso the statement is false, for the code as for the model: `update_current_context` inside a
+re-entered block changes the one object that is also active further down - that is what the caller
+asked for.)  `touched_subset` bounds the updated objects statically: only objects the block names,
+each only where it is on top. -/
+theorem restore_arguments (E : Env) (h : Heap) (s : List Nat) (id o : Nat) (sf : Bool) (body cb : Prog)
+    (hd : ∀ i ∈ (exec E h s (.enter id o sf body cb .done)).touched, i ∉ s) :
+    inForce (exec E h s (.enter id o sf body cb .done)).heap (exec E h s (.enter id o sf body cb .done)).stack =
+      inForce h s := by
+  unfold inForce
+  rw [exec_stack, exec_inForce E _ h s s hd]
+
+/-- a block that contains no `update_current_context` and creates no object restores the arguments,
+whatever it enters and however often -/
+theorem restore_arguments_static (E : Env) (h : Heap) (s : List Nat) (p : Prog)
+    (hn : ∀ i ∈ s, i ∉ oidsOf p) (hu : noTopUpdate p = true) :
+    inForce (exec E h s p).heap (exec E h s p).stack = inForce h s := by
+  unfold inForce
+  rw [exec_stack, exec_inForce E _ h s s]
+  intro i hi his
+  rcases touched_subset E p h s i hi with h1 | h1
+  · exact hn i his h1
+  · rw [hu] at h1; cases h1.1
+
+/-- the exact event list of `with o: body`: enter; the body in the context with `o` pushed; (for an
+application object) the stop signal resolved at that point; the callbacks unless the stop signal
+raised; the exit, recording the arguments in force before and after; the rest unless something raised -/
+theorem enter_events (E : Env) (h : Heap) (s : List Nat) (id o : Nat) (sf : Bool) (body cb next : Prog)
+    (ob : Obj) (ho : hget h o = some ob) :
+    ∃ B C N : Res, ∃ stop : Option CallRes,
+      B = exec E h (o :: s) body ∧
+      stop = (if ob.stop then some (callRes E "send_signal" [.other "'stop'"] [] (frames B.heap (o :: s))) else none) ∧
+      C = orElse (match stop with | some r => r.isRejected || sf | none => false) B.heap (o :: s)
+            (exec E B.heap (o :: s) cb) ∧
+      N = orElse (B.raised || C.raised) C.heap s (exec E C.heap s next) ∧
+      (exec E h s (.enter id o sf body cb next)).evs =
+        Ev.enter id (inForce h (o :: s)) ::
+          (B.evs ++ C.evs ++ [Ev.exit id stop (inForce h s) (inForce C.heap s)]) ++ N.evs ∧
+      (exec E h s (.enter id o sf body cb next)).raised = N.raised := by
+  have hb := exec_stack E body h (o :: s)
+  have hc : ∀ sk, (orElse sk (exec E h (o :: s) body).heap (o :: s)
+      (exec E (exec E h (o :: s) body).heap (o :: s) cb)).stack = o :: s := by
+    intro sk; exact orElse_stack _ _ _ _ (exec_stack E cb _ _)
+  refine ⟨_, _, _, _, rfl, rfl, rfl, rfl, ?_, ?_⟩
+  · simp only [exec, ho, hb, hc, List.tail_cons] <;> rfl
+  · simp only [exec, ho, hb, hc, List.tail_cons] <;> rfl
+
+/-- **Callbacks.**  For a plain context object: the callbacks run after the body on every exit path,
+inside the context (so a decorated method called from a callback resolves its arguments against the
+context that is being closed), and an exception thrown by the body or by a callback propagates -
+after the context has been removed all the same. -/
+theorem block_events (E : Env) (h : Heap) (s : List Nat) (id o : Nat) (body cb next : Prog)
+    (ob : Obj) (ho : hget h o = some ob) (hplain : ob.stop = false) :
+    (exec E h s (.enter id o false body cb next)).evs =
+      Ev.enter id (inForce h (o :: s)) ::
+        ((exec E h (o :: s) body).evs ++ (exec E (exec E h (o :: s) body).heap (o :: s) cb).evs ++
+          [Ev.exit id none (inForce h s) (inForce (exec E (exec E h (o :: s) body).heap (o :: s) cb).heap s)]) ++
+        (orElse ((exec E h (o :: s) body).raised || (exec E (exec E h (o :: s) body).heap (o :: s) cb).raised)
+          (exec E (exec E h (o :: s) body).heap (o :: s) cb).heap s
+          (exec E (exec E (exec E h (o :: s) body).heap (o :: s) cb).heap s next)).evs ∧
+    (((exec E h (o :: s) body).raised || (exec E (exec E h (o :: s) body).heap (o :: s) cb).raised) = true →
+      (exec E h s (.enter id o false body cb next)).raised = true ∧
+      (exec E h s (.enter id o false body cb next)).stack = s) := by
+  have hb := exec_stack E body h (o :: s)
+  have hcs := exec_stack E cb (exec E h (o :: s) body).heap (o :: s)
+  constructor
+  · simp only [exec, ho, hplain, hb, orElse, Bool.false_eq_true, if_false, hcs, List.tail_cons]
+  · intro hr
+    refine ⟨?_, exec_stack E _ h s⟩
+    simp only [exec, ho, hplain, hb, orElse, Bool.false_eq_true, if_false, hcs, List.tail_cons, hr, if_true]
+
+/-- a method body that raises after resolution (SCP error, failed allocation, ...) inside a block
+leaves, like any exception: what it has sent stays in the event list, the rest of the body is
+skipped and the block removes its entry -/
+theorem failing_call_unwinds (E : Env) (h : Heap) (s : List Nat) (id o cid : Nat) (m : String)
+    (pos : List Val) (kw : Dict) (rest cb : Prog) (ob : Obj) (ho : hget h o = some ob) :
+    (exec E h s (.enter id o false (.call cid m pos kw false true rest) cb .done)).stack = s ∧
+    (exec E h s (.enter id o false (.call cid m pos kw false true rest) cb .done)).raised = true ∧
+    ∃ post, (exec E h s (.enter id o false (.call cid m pos kw false true rest) cb .done)).evs =
+      Ev.enter id (inForce h (o :: s)) :: Ev.call cid (callRes E m pos kw (frames h (o :: s))) :: post := by
+  refine ⟨exec_stack E _ h s, ?_, ?_⟩
+  · simp [exec, ho, orElse]
+  · simp [exec, ho, orElse]
 
 /-! ## leaving an application block stops that application -/
 
@@ -282,131 +356,140 @@ theorem stop_targets_application (E : Env) (hs : E.sigs = sigs) (hc : E.cls = "M
   simp only [callRes, hs, hc, hf, List.length_singleton, hr, hb, hw]
   simp
 
-/-- **Application blocks.**  Leaving `with mc.application(..): body` - normally, by
-exception, at any nesting - emits, inside the block, before any callback the user
-registered on the context runs and before the context is removed, the stop signal
-resolved to the block's application id `a` (provided the body does not itself
-re-assign `app_id` of the block's own context with `update_current_context`);
-whatever the callbacks `cb` do afterwards, the arguments in force at the exit are
-those before the block. -/
-theorem application_stops (E : Env) (hs : E.sigs = sigs) (hc : E.cls = "MachineController")
-    (s : List Dict) (id : Nat) (pos : List Val) (kw : Dict) (stopFails : Bool) (body cb next : Prog)
-    (bound : Dict) (a : Val)
-    (hacc : (resolve mc_application pos.length kw s >>= bind mc_application pos) = .ok bound)
-    (ha : dget bound "app_id" = some a) (hreq : a ≠ Val.required) (hbody : noTopUpdate body = true) :
-    ∃ pre post,
-      (exec E s (.app id pos kw stopFails body cb next)).evs =
+/-- **Application objects.**  Leaving `with o: body` where `o` was made by `mc.application(a)` - a
+fresh object, one that is already active further down (`app30 / application(31) / app30`) or one
+used before; normally, by exception, at any nesting - emits, inside the block, before any callback
+the user registered runs and before the entry is removed, the stop signal resolved to the object's
+application id `a`, provided the body does not itself update or re-create `o`. -/
+theorem application_stops_object (E : Env) (hs : E.sigs = sigs) (hc : E.cls = "MachineController")
+    (h : Heap) (s : List Nat) (id o : Nat) (stopFails : Bool) (body cb next : Prog) (a : Val)
+    (ho : hget h o = some ⟨[("app_id", a)], true⟩) (hreq : a ≠ Val.required)
+    (hbody : o ∉ (exec E h (o :: s) body).touched) :
+    ∃ pre post aft,
+      (exec E h s (.enter id o stopFails body cb next)).evs =
         pre ++ Ev.exit id (some (.sent [("app_id", a)] [⟨.scp, .int 255, .int 255, .int 0, some a⟩]))
-          (merged s) :: post := by
-  have hf : findSig sigs "MachineController" "application" = some mc_application := by decide
-  have hst := exec_stack_same E body [("app_id", a)] s hbody
-  have hstop := stop_targets_application E hs hc a hreq s
-  obtain ⟨c'', hc2⟩ := exec_stack E cb [("app_id", a)] s
-  simp only [exec, hs, hc, hf, hacc, ha, Option.getD_some]
-  rw [← hs, ← hc] at *
-  simp only [hst, hstop, hc2, CallRes.isRejected, Bool.false_or]
-  cases stopFails
-  · simp only [Bool.false_eq_true, if_false, hc2, List.tail_cons]
-    split
-    · exact ⟨Ev.enter id (merged ([("app_id", a)] :: s)) :: ((exec E ([("app_id", a)] :: s) body).evs ++
-        (exec E ([("app_id", a)] :: s) cb).evs), [], by simp⟩
-    · exact ⟨Ev.enter id (merged ([("app_id", a)] :: s)) :: ((exec E ([("app_id", a)] :: s) body).evs ++
-        (exec E ([("app_id", a)] :: s) cb).evs), (exec E s next).evs, by simp⟩
-  · simp only [if_true, List.tail_cons, Bool.or_true]
-    exact ⟨Ev.enter id (merged ([("app_id", a)] :: s)) :: (exec E ([("app_id", a)] :: s) body).evs, [], by simp⟩
+          (inForce h s) aft :: post := by
+  obtain ⟨B, C, N, stop, hB, hstop, hC, hN, hev, _⟩ := enter_events E h s id o stopFails body cb next _ ho
+  have hargs : argsOf B.heap o = [("app_id", a)] := by
+    rw [hB]; unfold argsOf; rw [exec_heap E body h (o :: s) o hbody, ho]
+  have hst : stop = some (.sent [("app_id", a)] [⟨.scp, .int 255, .int 255, .int 0, some a⟩]) := by
+    rw [hstop]
+    simp only [if_true]
+    have : frames B.heap (o :: s) = [("app_id", a)] :: frames B.heap s := by simp [frames, hargs]
+    rw [this, stop_targets_application E hs hc a hreq]
+  rw [hev, hst]
+  exact ⟨Ev.enter id (inForce h (o :: s)) :: (B.evs ++ C.evs), N.evs, inForce C.heap s, by simp⟩
 
-/-- the events of an application block, exactly: enter; the body; the stop signal for the block's
-application, resolved in the block's context BEFORE any user callback runs; the user's callbacks `cb`
-(skipped if the stop signal raised); exit with the arguments in force before the block; then the rest
-of the program unless the body, the stop signal or a callback raised -/
-theorem application_events (E : Env) (hs : E.sigs = sigs) (hc : E.cls = "MachineController")
-    (s : List Dict) (id : Nat) (pos : List Val) (kw : Dict) (stopFails : Bool) (body cb next : Prog)
+/-- an accepted `o = mc.application(..)` creates the object `{app_id: a}` with the stop callback -/
+theorem newApp_creates (E : Env) (hs : E.sigs = sigs) (hc : E.cls = "MachineController")
+    (h : Heap) (s : List Nat) (id o : Nat) (pos : List Val) (kw : Dict) (next : Prog) (bound : Dict) (a : Val)
+    (hacc : (resolve mc_application pos.length kw (frames h s) >>= bind mc_application pos) = .ok bound)
+    (ha : dget bound "app_id" = some a) :
+    (exec E h s (.newApp id o pos kw next)).evs = (exec E (hset h o ⟨[("app_id", a)], true⟩) s next).evs ∧
+    (exec E h s (.newApp id o pos kw next)).touched = o :: (exec E (hset h o ⟨[("app_id", a)], true⟩) s next).touched := by
+  have hf : findSig sigs "MachineController" "application" = some mc_application := by decide
+  simp only [exec, hs, hc, hf, hacc, ha, Option.getD_some, and_self]
+
+/-- **Application blocks.**  `with mc.application(..): body`: the exit of the block carries the stop
+signal for the application id `a` the call resolved (provided the body does not itself re-assign
+`app_id` of the block's own context with `update_current_context`) -/
+theorem application_stops (E : Env) (hs : E.sigs = sigs) (hc : E.cls = "MachineController")
+    (h : Heap) (s : List Nat) (id : Nat) (pos : List Val) (kw : Dict) (stopFails : Bool) (body cb next : Prog)
     (bound : Dict) (a : Val)
-    (hacc : (resolve mc_application pos.length kw s >>= bind mc_application pos) = .ok bound)
-    (ha : dget bound "app_id" = some a) (hreq : a ≠ Val.required) (hbody : noTopUpdate body = true) :
-    let B := exec E ([("app_id", a)] :: s) body
-    let C : Res := if stopFails then ⟨[("app_id", a)] :: s, [], true⟩ else exec E ([("app_id", a)] :: s) cb
-    (exec E s (.app id pos kw stopFails body cb next)).evs =
-      Ev.enter id (merged ([("app_id", a)] :: s)) ::
-        (B.evs ++ C.evs ++
-          [Ev.exit id (some (.sent [("app_id", a)] [⟨.scp, .int 255, .int 255, .int 0, some a⟩])) (merged s)]) ++
-      (if B.raised || C.raised then [] else (exec E s next).evs) := by
-  have hf : findSig sigs "MachineController" "application" = some mc_application := by decide
-  have hst := exec_stack_same E body [("app_id", a)] s hbody
-  have hstop := stop_targets_application E hs hc a hreq s
-  obtain ⟨c'', hc2⟩ := exec_stack E cb [("app_id", a)] s
-  simp only [exec, hs, hc, hf, hacc, ha, Option.getD_some]
-  rw [← hs, ← hc] at *
-  simp only [hst, hstop, hc2, CallRes.isRejected, Bool.false_or]
-  cases stopFails
-  · simp only [Bool.false_eq_true, if_false, hc2, List.tail_cons]
-    split <;> simp
-  · simp
+    (hacc : (resolve mc_application pos.length kw (frames h s) >>= bind mc_application pos) = .ok bound)
+    (ha : dget bound "app_id" = some a) (hreq : a ≠ Val.required)
+    (hbody : noTopUpdate body = true) (hfresh : sugarOid id ∉ oidsOf body) :
+    ∃ pre post bef aft,
+      (exec E h s (Prog.app id pos kw stopFails body cb next)).evs =
+        pre ++ Ev.exit id (some (.sent [("app_id", a)] [⟨.scp, .int 255, .int 255, .int 0, some a⟩]))
+          bef aft :: post := by
+  unfold Prog.app
+  rw [(newApp_creates E hs hc h s id (sugarOid id) pos kw _ bound a hacc ha).1]
+  have hnt : sugarOid id ∉ (exec E (hset h (sugarOid id) ⟨[("app_id", a)], true⟩) (sugarOid id :: s) body).touched := by
+    intro hi
+    rcases touched_subset E body _ _ _ hi with h1 | h1
+    · exact hfresh h1
+    · rw [hbody] at h1; cases h1.1
+  obtain ⟨pre, post, aft, hev⟩ := application_stops_object E hs hc (hset h (sugarOid id) ⟨[("app_id", a)], true⟩) s id
+    (sugarOid id) stopFails body cb next a (by simp [hget_hset]) hreq hnt
+  exact ⟨pre, post, _, aft, hev⟩
 
-private theorem nested_shape (e1 e2 x1 x2 : Ev) (B C X Y Z : List Ev) :
-    e1 :: ((e2 :: (B ++ C ++ [x2]) ++ X) ++ Y ++ [x1]) ++ Z =
-      (e1 :: e2 :: (B ++ C)) ++ x2 :: ((X ++ Y) ++ x1 :: Z) := by simp
+/-- the events of an application object's block, exactly: enter; the body; the stop signal for the
+object's application, resolved in the block's context BEFORE any user callback runs; the user's
+callbacks `cb` (skipped if the stop signal raised); exit; then the rest of the program unless the
+body, the stop signal or a callback raised -/
+theorem application_events (E : Env) (hs : E.sigs = sigs) (hc : E.cls = "MachineController")
+    (h : Heap) (s : List Nat) (id o : Nat) (stopFails : Bool) (body cb next : Prog) (a : Val)
+    (ho : hget h o = some ⟨[("app_id", a)], true⟩) (hreq : a ≠ Val.required)
+    (hbody : o ∉ (exec E h (o :: s) body).touched) :
+    ∃ B C N : Res,
+      B = exec E h (o :: s) body ∧
+      C = orElse stopFails B.heap (o :: s) (exec E B.heap (o :: s) cb) ∧
+      N = orElse (B.raised || C.raised) C.heap s (exec E C.heap s next) ∧
+      (exec E h s (.enter id o stopFails body cb next)).evs =
+        Ev.enter id (inForce h (o :: s)) ::
+          (B.evs ++ C.evs ++
+            [Ev.exit id (some (.sent [("app_id", a)] [⟨.scp, .int 255, .int 255, .int 0, some a⟩]))
+              (inForce h s) (inForce C.heap s)]) ++ N.evs := by
+  obtain ⟨B, C, N, stop, hB, hstop, hC, hN, hev, _⟩ := enter_events E h s id o stopFails body cb next _ ho
+  have hargs : argsOf B.heap o = [("app_id", a)] := by
+    rw [hB]; unfold argsOf; rw [exec_heap E body h (o :: s) o hbody, ho]
+  have hst : stop = some (.sent [("app_id", a)] [⟨.scp, .int 255, .int 255, .int 0, some a⟩]) := by
+    rw [hstop]
+    simp only [if_true]
+    have : frames B.heap (o :: s) = [("app_id", a)] :: frames B.heap s := by simp [frames, hargs]
+    rw [this, stop_targets_application E hs hc a hreq]
+  subst hst
+  simp only [CallRes.isRejected, Bool.false_or] at hC
+  exact ⟨B, C, N, hB, hC, hN, hev⟩
+
+private theorem nested_shape (e1 x1 x2 : Ev) (pre2 post2 C X : List Ev) :
+    e1 :: ((pre2 ++ x2 :: post2) ++ C ++ [x1]) ++ X =
+      (e1 :: pre2) ++ x2 :: ((post2 ++ C) ++ x1 :: X) := by simp
 
 /-- **Nested application blocks.**  `with mc.application(a): with mc.application(b): body` (the inner
 block followed by any further statements `next2` of the outer body, any callbacks, any exit path of
-`body`): the inner block's exit carries the stop signal for `b` and restores the outer block's
-arguments (application `a` in force again); later, the outer block's exit carries the stop signal
-for `a` and restores the arguments before both. -/
+`body`): the inner block's exit carries the stop signal for `b`; later, the outer block's exit
+carries the stop signal for `a`. -/
 theorem nested_applications_stop_inner_first (E : Env) (hs : E.sigs = sigs) (hc : E.cls = "MachineController")
-    (s : List Dict) (id1 id2 : Nat) (pos1 pos2 : List Val) (kw1 kw2 : Dict) (sf1 sf2 : Bool)
+    (h : Heap) (s : List Nat) (id1 id2 : Nat) (pos1 pos2 : List Val) (kw1 kw2 : Dict) (sf1 sf2 : Bool)
     (body cb1 cb2 next1 next2 : Prog) (bound1 bound2 : Dict) (a b : Val)
-    (hacc1 : (resolve mc_application pos1.length kw1 s >>= bind mc_application pos1) = .ok bound1)
+    (hacc1 : (resolve mc_application pos1.length kw1 (frames h s) >>= bind mc_application pos1) = .ok bound1)
     (ha : dget bound1 "app_id" = some a) (hreqa : a ≠ Val.required)
-    (hacc2 : (resolve mc_application pos2.length kw2 ([("app_id", a)] :: s) >>= bind mc_application pos2) = .ok bound2)
+    (hacc2 : (resolve mc_application pos2.length kw2
+        (frames (hset h (sugarOid id1) ⟨[("app_id", a)], true⟩) (sugarOid id1 :: s)) >>= bind mc_application pos2) = .ok bound2)
     (hb : dget bound2 "app_id" = some b) (hreqb : b ≠ Val.required)
-    (hbody : noTopUpdate body = true) (hnext2 : noTopUpdate next2 = true) :
-    ∃ pre mid post,
-      (exec E s (.app id1 pos1 kw1 sf1 (.app id2 pos2 kw2 sf2 body cb2 next2) cb1 next1)).evs =
-        pre ++ Ev.exit id2 (some (.sent [("app_id", b)] [⟨.scp, .int 255, .int 255, .int 0, some b⟩]))
-                (merged ([("app_id", a)] :: s)) ::
-        (mid ++ Ev.exit id1 (some (.sent [("app_id", a)] [⟨.scp, .int 255, .int 255, .int 0, some a⟩]))
-                (merged s) :: post) := by
-  have houter := application_events E hs hc s id1 pos1 kw1 sf1 (.app id2 pos2 kw2 sf2 body cb2 next2) cb1 next1
-    bound1 a hacc1 ha hreqa (by simpa [noTopUpdate] using hnext2)
-  have hinner := application_events E hs hc ([("app_id", a)] :: s) id2 pos2 kw2 sf2 body cb2 next2
-    bound2 b hacc2 hb hreqb hbody
-  simp only at houter hinner
-  rw [houter, hinner]
-  exact ⟨_, _, _, nested_shape _ _ _ _ _ _ _ _ _⟩
-
-/-- **Callbacks.**  The events of a plain block with `before_close` callbacks `cb`: the callbacks run
-after the body on every exit path, inside the block's context (so a decorated method called from a
-callback resolves its arguments against the context that is being closed), and an exception
-thrown by a callback propagates - after the context has been removed all the same. -/
-theorem block_events (E : Env) (s : List Dict) (id : Nat) (ctx : Dict) (body cb next : Prog) :
-    let B := exec E (dictOf ctx :: s) body
-    let C := exec E B.stack cb
-    (exec E s (.block id ctx body cb next)).evs =
-      Ev.enter id (merged (dictOf ctx :: s)) :: (B.evs ++ C.evs ++ [Ev.exit id none (merged s)]) ++
-        (if B.raised || C.raised then [] else (exec E s next).evs) ∧
-    ((B.raised || C.raised) = true →
-      (exec E s (.block id ctx body cb next)).raised = true ∧ (exec E s (.block id ctx body cb next)).stack = s) := by
-  obtain ⟨c', hc⟩ := exec_stack E body (dictOf ctx) s
-  obtain ⟨c'', hc2⟩ := exec_stack E cb c' s
-  simp only [exec, hc, hc2, List.tail_cons]
-  constructor
-  · split <;> simp
-  · intro h
-    simp [h]
-
-/-- a method body that raises after resolution (SCP error, failed allocation, ...) inside a block
-leaves, like any exception: what it has sent stays in the event list, the rest of the body is
-skipped and the block restores the arguments -/
-theorem failing_call_unwinds (E : Env) (s : List Dict) (id cid : Nat) (ctx : Dict) (m : String)
-    (pos : List Val) (kw : Dict) (rest cb : Prog) :
-    let r := exec E s (.block id ctx (.call cid m pos kw false true rest) cb .done)
-    r.stack = s ∧ r.raised = true ∧
-    ∃ post, r.evs = Ev.enter id (merged (dictOf ctx :: s)) ::
-      Ev.call cid (callRes E m pos kw (dictOf ctx :: s)) :: post := by
-  obtain ⟨c'', hc2⟩ := exec_stack E cb (dictOf ctx) s
-  refine ⟨restore E s id ctx _ cb, ?_, ?_⟩
-  · simp [exec]
-  · simp [exec]
+    (hbody : noTopUpdate body = true) (hnext2 : noTopUpdate next2 = true)
+    (hne : id1 ≠ id2) (hf1 : sugarOid id1 ∉ oidsOf body ++ oidsOf cb2 ++ oidsOf next2)
+    (hf2 : sugarOid id2 ∉ oidsOf body) :
+    ∃ pre mid post b1 a1 b2 a2,
+      (exec E h s (Prog.app id1 pos1 kw1 sf1 (Prog.app id2 pos2 kw2 sf2 body cb2 next2) cb1 next1)).evs =
+        pre ++ Ev.exit id2 (some (.sent [("app_id", b)] [⟨.scp, .int 255, .int 255, .int 0, some b⟩])) b1 a1 ::
+        (mid ++ Ev.exit id1 (some (.sent [("app_id", a)] [⟨.scp, .int 255, .int 255, .int 0, some a⟩])) b2 a2 ::
+          post) := by
+  have hso : sugarOid id1 ≠ sugarOid id2 := by unfold sugarOid; omega
+  have hinner := application_stops E hs hc (hset h (sugarOid id1) ⟨[("app_id", a)], true⟩) (sugarOid id1 :: s)
+    id2 pos2 kw2 sf2 body cb2 next2 bound2 b hacc2 hb hreqb hbody hf2
+  obtain ⟨pre2, post2, b1, a1, hin⟩ := hinner
+  have hnt : sugarOid id1 ∉ (exec E (hset h (sugarOid id1) ⟨[("app_id", a)], true⟩) (sugarOid id1 :: s)
+      (Prog.app id2 pos2 kw2 sf2 body cb2 next2)).touched := by
+    intro hi
+    rcases touched_subset E _ _ _ _ hi with h1 | h1
+    · simp only [Prog.app, oidsOf, List.mem_cons, List.mem_append] at h1
+      simp only [List.mem_append] at hf1
+      rcases h1 with h1 | h1 | (h1 | h1) | h1
+      · exact hso h1
+      · exact hso h1
+      · exact hf1 (Or.inl (Or.inl h1))
+      · exact hf1 (Or.inl (Or.inr h1))
+      · exact hf1 (Or.inr h1)
+    · simp only [Prog.app, noTopUpdate, hnext2] at h1; cases h1.1
+  obtain ⟨B, C, N, hB, hC, hN, hev⟩ := application_events E hs hc (hset h (sugarOid id1) ⟨[("app_id", a)], true⟩) s id1
+    (sugarOid id1) sf1 (Prog.app id2 pos2 kw2 sf2 body cb2 next2) cb1 next1 a (by simp [hget_hset]) hreqa hnt
+  unfold Prog.app at hev ⊢
+  rw [(newApp_creates E hs hc h s id1 (sugarOid id1) pos1 kw1 _ bound1 a hacc1 ha).1, hev, hB]
+  rw [hin]
+  exact ⟨_, _, _, b1, a1, _, _, nested_shape _ _ _ _ _ _ _⟩
 
 /-! ## connection choice -/
 
@@ -466,8 +549,24 @@ example : (resolve mc_application 1 [] [[("app_id", .int 66)]] >>= bind mc_appli
 
 /-- a block left by exception inside a block: the stack is the one before -/
 example :
-    (exec ⟨sigs, "MachineController", []⟩ [[("app_id", .int 66)]]
-      (.block 1 [("x", .int 1)] (.update [("y", .int 5)] (.block 2 [("x", .int 2)] .raise .done .done)) .raise .done)).stack =
-    [[("app_id", .int 66)]] := by rfl
+    (exec ⟨sigs, "MachineController", []⟩ [(0, ⟨[("app_id", .int 66)], false⟩)] [0]
+      (Prog.block 1 [("x", .int 1)] (.update [("y", .int 5)] (Prog.block 2 [("x", .int 2)] .raise .done .done)) .raise .done)).stack =
+    [0] := by rfl
+
+/-- the same context object active twice: `a = mc(x=1, y=1); with a: with mc(x=2, y=2): with a: pass`
+followed by `mc.sdram_free(ptr)`: the command after the inner block goes to chip (2, 2) - the
+arguments in force before the inner block - and the exit event of the inner block says so -/
+example :
+    ((exec ⟨sigs, "MachineController", []⟩ [(0, ⟨[("app_id", .int 66)], false⟩)] [0]
+      (.new 7 [("x", .int 1), ("y", .int 1)]
+        (.enter 1 7 false
+          (Prog.block 2 [("x", .int 2), ("y", .int 2)]
+            (.enter 3 7 false .done .done
+              (.call 4 "sdram_free" [.int 4096] [] true false .done)) .done .done) .done .done))).evs.filterMap
+      fun e => match e with
+        | .call _ (.sent kw _) => some kw
+        | .exit 3 _ bef aft => some (if bef == aft then aft else [])
+        | _ => none) =
+    [[("app_id", .int 66), ("x", .int 2), ("y", .int 2)], [("x", .int 2), ("y", .int 2)]] := by decide
 
 end Rig.C18
